@@ -621,7 +621,10 @@ class C03(HeapCheck):
         "document_is_chain_root_ext", "clone_detached", "clone_fresh", "clone_then_attach_wf",
         "merge_only_adds", "merge_keeps_existing", "clean_only_detaches", "clone_terminates",
         # the .document query itself (Model/HeapQuery.lean), compared between the operations
-        "document_query_is_chain_root", "document_query_is_chain_root_ext", "document_query_none"]]
+        "document_query_is_chain_root", "document_query_is_chain_root_ext", "document_query_none",
+        # the link setter after a refused merge (fixes 592a7e3, dccf4ba)
+        "stored_link_not_reassigned", "reresolve_does_not_nest", "legacy_relink_runs_out_of_budget",
+        "stored_link_refused_unchanged"]]
     quick_n = 1500
     thorough_n = 40000
     case_timeout = 10
@@ -860,8 +863,8 @@ class C03(HeapCheck):
     def finding_key(self, case, obs, failure):
         if case.get("oracle_only") and failure.endswith(" [the name of the added object is NaN]"):
             return "nan-name-readded"
-        if "xops" in case and failure.endswith("did not terminate (RecursionError)" + self.RELINK_NOTE):
-            return "refused-link-reresolved-without-end"
+        # refused-link-reresolved-without-end was repaired by 592a7e3 (the note of `relink_note` still
+        # marks the shape in the report): a regression is a VIOLATION
         return None
 
     def oracle(self, case, obs):
